@@ -133,3 +133,7 @@ def file_id(v, eng=None, st=None):
     if isinstance(v, RefV):
         v = eng.read(st, v.cell, v.path, None)
     return getattr(v, "name", "?")
+
+
+def is_errev(e):
+    return isinstance(e.ret, str) and e.ret == "err"
